@@ -2,7 +2,7 @@
 import os
 import shutil
 
-from sim import core, world
+from sim import core, simfs, world
 from . import calltree
 
 PROP = "C10"
@@ -20,7 +20,7 @@ ASSUMPTIONS = ["invocations are compared by (function, argument hash), not by po
                "the model is ~100 lines of pure Python in checks/calltree.py"]
 COMPONENTS = {"real": ["runner (single + batch paths), call stack, propagate_dependencies, resource functions, storage backends", "fork lifetimes"],
               "stub": ["generated program", "uuid4, clock"]}
-REACH = ["concurrent_cases", "sched:provenance_records_checked", "rounds", "records_compared", "rounds_with_memoized_subcalls", "batch_root_runs", "restarts", "evictions",
+REACH = ["rounds_with_read_faults", "concurrent_cases", "sched:provenance_records_checked", "rounds", "records_compared", "rounds_with_memoized_subcalls", "batch_root_runs", "restarts", "evictions",
          "trees_with_failing_calls", "trees_with_batches", "trees_with_resources"]
 
 
@@ -31,8 +31,13 @@ def gen_case(seed):
     for _ in range(rng.randrange(1, 5)):
         rounds.append({"forget_p": rng.choice([0.0, 0.3, 0.6, 1.0]), "pick": rng.randrange(1 << 30),
                        "pre": rng.choice(["none", "none", "restart", "evict"]), "how": rng.choice(["single", "single", "batch"])})
-    return {"seed": seed, "prog": prog, "x": rng.randrange(3), "rounds": rounds,
+    case = {"seed": seed, "prog": prog, "x": rng.randrange(3), "rounds": rounds,
             "backend": rng.choice(["fs", "fs+cache", "memory"]), "ctx": None}
+    if case["backend"] != "memory" and rng.random() < 0.3:
+        # reported I/O errors while stored mementos / results are read during the re-runs (a sub-call that is memoized
+        # but cannot be read is computed again: the record must not change)
+        case["read_faults"] = {"p": rng.choice([0.05, 0.15, 0.4]), "max": rng.choice([1, 2, 4])}
+    return case
 
 
 NSCHED = {"quick": 1200, "thorough": 20000}
@@ -172,6 +177,10 @@ def run_rounds(root, case, group, calls, li):
                 if mc is not None:
                     mc.forget_everything()
         side.take()
+        rf = case.get("read_faults") if rnd else None
+        if rf:
+            simfs.arm(world.store_roots(root, False))
+            simfs.set_read_plan(p=rf["p"], max_faults=rf["max"], seed=case["seed"] + rnd_index)
         try:
             args = callargs(prog, 0, case["x"])
             if rnd and rnd["how"] == "batch":
@@ -182,8 +191,12 @@ def run_rounds(root, case, group, calls, li):
                 out = ["ok", rootfn(**args)]
         except Exception as e:  # noqa
             out = ["exc", type(e).__name__, __import__("builtins").__vmsg__(e)]
+        read_faults_fired = 0
+        if rf:
+            read_faults_fired = len(simfs.S.read_fired)
+            simfs.disarm()
         runs = [[t[0], t[1]] for t in side.take()]
-        emit({"round": rnd_index, "out": out, "runs": runs, "forgotten": forgotten,
+        emit({"round": rnd_index, "out": out, "runs": runs, "forgotten": forgotten, "read_faults_fired": read_faults_fired,
               "records": collect_records(mod, prog, calls), "expected": expected_records(mod, prog, calls, root + "/res")})
     ev, _ = core.lifetime(body)
     return ev
@@ -236,12 +249,17 @@ def execute(case):
             present.add(key)
             for j, xv, eff in calls[key]["invocations"]:
                 visit(calltree.Model.key(j, xv, eff))
+        faulted = False      # a reported read error was injected in this or an earlier round
         for res in results:
             ri = res["round"]
+            faulted = faulted or bool(res.get("read_faults_fired"))
             present -= set(res["forgotten"])
             visit(calltree.Model.key(0, case["x"], case.get("ctx")))
             rnd = ([None] + case["rounds"])[ri]
             bump("rounds")
+            if res.get("read_faults_fired"):
+                bump("read_faults_fired", res["read_faults_fired"])
+                bump("rounds_with_read_faults")
             if rnd and rnd["how"] == "batch":
                 bump("batch_root_runs")
             log.append([ri, res["out"][:2], res["runs"], res["forgotten"]])
@@ -253,6 +271,11 @@ def execute(case):
             want = calltree.jsonable(exp_out)
             got = calltree.jsonable(res["out"])
             if got[:2] != want[:2] and not (got[0] == "exc" and want[0] == "exc" and got[1] == want[1]):
+                if faulted and "OSError" in str(got):
+                    # the injected I/O error was reported to a caller (or captured by user code that turns the exceptions
+                    # of its sub-calls into data): an operation hit by a fault may fail; nothing more is judged here
+                    bump("rounds_failed_by_read_fault")
+                    break
                 viol.append(core.violation("root-outcome-differs", feats, {"got": got, "expected": want, "round": ri}))
                 break
             for key in sorted(calls):
@@ -262,6 +285,8 @@ def execute(case):
                 if key not in present:
                     continue    # forgotten beneath a call that stayed memoized: legitimately absent
                 if r is None:
+                    if faulted:
+                        continue    # a call that failed with the injected error is not recorded; the records that exist are judged
                     viol.append(core.violation("record-missing", feats, {"call": key, "round": ri}))
                     break
                 if "exc" in r:
